@@ -1037,7 +1037,11 @@ func (p *partition) handleReplicationRequest(msg *nats.Msg) {
 	}
 	replicator, ok := p.replicators[req.ReplicaID]
 	if !ok {
-		panic(fmt.Sprintf("No replicator for partition %s and replica %s", p, req.ReplicaID))
+		// There is no replicator for the leader itself, so a request naming
+		// this server as the replica is bogus.
+		p.srv.logger.Warnf("Received replication request for partition %s from replica %s "+
+			"which has no replicator", p, req.ReplicaID)
+		return
 	}
 	replicator.request(replicationRequest{req, msg, received})
 }
